@@ -5,6 +5,7 @@ import (
 	"fmt"
 	"math/rand/v2"
 	"sort"
+	"strings"
 	"time"
 
 	jsonv2 "github.com/go-json-experiment/json"
@@ -187,6 +188,11 @@ func optExec(c *optCase) {
 	defer func() {
 		if r := recover(); r != nil {
 			c.Panic = fmt.Sprint(r)
+		}
+		for _, res := range c.Results { // a panic inside the library is never an acceptable result
+			if b, ok := res[1].([]int); ok && strings.HasPrefix(string(bytesOf(b)), "PANIC ") {
+				c.Panic = string(bytesOf(b))
+			}
 		}
 	}()
 	c.Results, c.Before, c.After, c.Out = [][]any{}, [][]any{}, [][]any{}, []int{}
